@@ -600,6 +600,36 @@ func r115(c *Ctx, r *R) {
 				for _, k := range qkeys {
 					r.Check(reads[k], key+":query:"+k, call.Pos(), "the handler reads query key "+k, fmt.Sprintf("client.%s sends query key %q but handler %s never reads it", fd.Name.Name, k, hit.handler.Name()))
 				}
+				// body types: what the handler sends is what the client
+				// decodes into (JSON hides a mismatch until a field is
+				// silently dropped or a decode fails)
+				if strings.HasSuffix(fn, ").do") && len(call.Args) >= 6 {
+					if ct := cpkg.TypesInfo.TypeOf(call.Args[5]); ct != nil {
+						if pt, ok := ct.(*types.Pointer); ok {
+							want := pt.Elem()
+							var sent []types.Type
+							withAnon(hf, func(g *ssa.Function) {
+								for _, sc := range findCalls(g, false, "rest.API).sendResponse") {
+									a := callArgs(sc.Common())
+									if mi, ok := a[3].(*ssa.MakeInterface); ok {
+										sent = append(sent, mi.X.Type())
+									}
+								}
+							})
+							if len(sent) > 0 {
+								match := true
+								var names []string
+								for _, st := range sent {
+									names = append(names, types.TypeString(st, shortQual))
+									if !sameJSONShape(st, want) {
+										match = false // every answer of the handler, not just one branch
+									}
+								}
+								r.Check(match, key+":body", call.Pos(), "the client decodes the response into the type the handler sends ("+types.TypeString(want, shortQual)+")", fmt.Sprintf("client.%s decodes the response into %s, handler %s sends %v", fd.Name.Name, types.TypeString(want, shortQual), hit.handler.Name(), names))
+							}
+						}
+					}
+				}
 				switch qdyn {
 				case "ToQuery":
 					r.Check(callsFromQuery, key+":query:options", call.Pos(), "pin options written by ToQuery are parsed by FromQuery", "the client sends pin options (ToQuery) to a handler that does not parse them with FromQuery")
@@ -818,4 +848,35 @@ func r116(c *Ctx, r *R) {
 		r.Und("routes", token.NoPos, "no GET routes found")
 	}
 	sort.Strings(nil)
+}
+
+// sameJSONShape: identical up to pointer indirections at any level
+// ([]*T and []T, *T and T encode and decode alike in JSON).
+func sameJSONShape(a, b types.Type) bool {
+	for {
+		if p, ok := a.(*types.Pointer); ok {
+			a = p.Elem()
+			continue
+		}
+		break
+	}
+	for {
+		if p, ok := b.(*types.Pointer); ok {
+			b = p.Elem()
+			continue
+		}
+		break
+	}
+	switch x := a.(type) {
+	case *types.Slice:
+		y, ok := b.(*types.Slice)
+		return ok && sameJSONShape(x.Elem(), y.Elem())
+	case *types.Array:
+		y, ok := b.(*types.Array)
+		return ok && x.Len() == y.Len() && sameJSONShape(x.Elem(), y.Elem())
+	case *types.Map:
+		y, ok := b.(*types.Map)
+		return ok && sameJSONShape(x.Key(), y.Key()) && sameJSONShape(x.Elem(), y.Elem())
+	}
+	return types.Identical(a, b)
 }
